@@ -165,6 +165,9 @@ func checkC04(p *Program, r *Report) {
 	}
 	c04Recursion(p, r, g, reach)
 	c04ReflectKeys(p, r, reach)
+	// the LZ4 trial-buffer loop must make progress towards its bound on every iteration (no hang) and
+	// size its buffers soundly (shared with C08)
+	c08Rules(p, r)
 }
 
 func describeVal(v ssa.Value) string {
